@@ -187,15 +187,16 @@ func (p *PIDZero) String() string {
 }
 
 // launch starts f on the supervisor's WaitGroup unless Shutdown has already begun (a WaitGroup
-// must not be added to concurrently with Wait). isRunnable marks f as the next runnable's goroutine.
-func (p *PIDZero) launch(f func(), isRunnable bool) bool {
+// must not be added to concurrently with Wait). idx is the index of the runnable f belongs to,
+// or -1 for a manager goroutine.
+func (p *PIDZero) launch(f func(), idx int) bool {
 	p.launchMu.Lock()
 	defer p.launchMu.Unlock()
 	if p.launchClosed {
 		return false
 	}
-	if isRunnable {
-		p.launched++
+	if idx >= p.launched {
+		p.launched = idx + 1
 	}
 	p.wg.Go(f)
 	return true
@@ -215,7 +216,7 @@ func (p *PIDZero) Run() error {
 	// Start a single reload manager if any runnable is reloadable
 	for _, r := range p.runnables {
 		if _, ok := r.(Reloadable); ok {
-			p.launch(p.startReloadManager, false)
+			p.launch(p.startReloadManager, -1)
 			break
 		}
 	}
@@ -223,7 +224,7 @@ func (p *PIDZero) Run() error {
 	// Start a single state monitor if any runnable reports state
 	for _, r := range p.runnables {
 		if _, ok := r.(Stateable); ok {
-			p.launch(p.startStateMonitor, false)
+			p.launch(p.startStateMonitor, -1)
 			break
 		}
 	}
@@ -231,20 +232,20 @@ func (p *PIDZero) Run() error {
 	// Start a single shutdown manager if any runnable can trigger shutdown
 	for _, r := range p.runnables {
 		if _, ok := r.(ShutdownSender); ok {
-			p.launch(p.startShutdownManager, false)
+			p.launch(p.startShutdownManager, -1)
 			break
 		}
 	}
 
 	// Start each service in sequence
-	for _, r := range p.runnables {
+	for i, r := range p.runnables {
 		started := p.launch(func() {
 			err := p.startRunnable(r)
 			if err != nil {
 				p.logger.Error("Runnable exited with error", "runnable", r, "error", err)
 				p.errorChan <- err
 			}
-		}, true)
+		}, i)
 		if !started {
 			p.logger.Debug("Shutdown already in progress, not starting", "runnable", r)
 			break
